@@ -135,3 +135,15 @@ Proof.
     rewrite E. unfold dec_trunc, dec_add. cbn [fst snd fold_left firstn Nat.add].
     rewrite !pow10_0, !Z.div_1_r. do 2 f_equal. lia.
 Qed.
+
+(* the optional neuropixel_version argument of _get_max_int_from_meta *)
+Lemma max_int_with_table d :
+  max_int_with None d = max_int d /\
+  (forall v, is_imec d = false -> max_int_with (Some v) d = max_int d) /\
+  (forall v, is_imec d = true ->
+     max_int_with (Some v) d =
+       if is_np2 v then match lookup (lit "imMaxInt") d with Some x => py_int x | None => None end
+       else match lookup (lit "imMaxInt") d with Some x => py_int x | None => Some 512 end).
+Proof.
+  unfold max_int_with, max_int. split; [reflexivity|]. split; intros v ->; reflexivity.
+Qed.
